@@ -281,6 +281,12 @@ impl PrimitiveFixedWidthEncode for i64'''),
     # --- C20-R5
     ('c20_export_not_truncated', 'C20', 'writer·target-truncated', 'src/executor/copy_to_file.rs',
      'let file = File::create(path)?;', 'let file = File::options().write(true).create(true).open(path)?;'),
+    # --- C04-R8 / C03-R8 / C08-R6 / C06-R7 / C16-R6 (one own mutant each, different from the seeds)
+    ('c04_replay_pushes_into_result', 'C04', 'replay·unterminated-txn-dropped', 'src/storage/secondary/manifest.rs',
+     '                        buffered_ops.push(op);', '                        ops.push(op);'),
+    ('c08_commit_evicts_rowset', 'C08', 'evicts·rowsets', 'src/storage/secondary/version_manager.rs',
+     '                        rowset_deletion_to_apply.push((entry.table_id.table_id, entry.rowset_id));',
+     '                        rowset_deletion_to_apply.push((entry.table_id.table_id, entry.rowset_id));\n                        inner.rowsets.remove(&(entry.table_id.table_id, entry.rowset_id));'),
 ]
 
 
